@@ -219,6 +219,18 @@ func fileDecompressWorker(tasks <-chan fileDecompressTask, cancel <-chan bool, r
 	}
 }
 
+// plainFileName protects an output name derived from the input file name
+// (no -o option) from being taken for one of the special output names: a file
+// called "none.knz" or "stdout.knz" decompresses to a file, not to the null
+// sink or the standard output.
+func plainFileName(name string) string {
+	if strings.EqualFold(name, _DECOMP_NONE) || strings.EqualFold(name, _DECOMP_STDOUT) {
+		return "." + string(os.PathSeparator) + name
+	}
+
+	return name
+}
+
 // Decompress is the main function to decompress the files or files based on the
 // input name provided at construction. Files may be processed concurrently
 // depending on the number of jobs provided at construction.
@@ -436,7 +448,7 @@ func (this *BlockDecompressor) Decompress() (int, uint64) {
 			}
 
 			if len(oName) == 0 {
-				oName = tmpName
+				oName = plainFileName(tmpName)
 			} else if inputIsDir == true && specialOutput == false {
 				oName = formattedOutName + relativeName(tmpName, formattedInName)
 			}
@@ -471,7 +483,7 @@ func (this *BlockDecompressor) Decompress() (int, uint64) {
 			}
 
 			if len(oName) == 0 {
-				oName = tmpName
+				oName = plainFileName(tmpName)
 			} else if inputIsDir == true && specialOutput == false {
 				oName = formattedOutName + relativeName(tmpName, formattedInName)
 			}
